@@ -477,6 +477,9 @@ struct Rw<'a> {
     returns: Vec<(usize, usize)>,     // ranges of `return ..` expressions, in source order
     loops: Vec<(usize, usize, usize)>, // (header end = body brace open, body brace close, loop start)
     panics: Vec<(usize, usize)>,
+    arms: Vec<(usize, usize, bool)>,          // match arm bodies (start, end, is_block)
+    calls: Vec<(String, usize, bool)>,        // (callee name, end of enclosing statement, stmt is a tail expression)
+    stmt_stack: Vec<(usize, bool)>,
 }
 
 fn path_is(p: &syn::Path, segs: &[&str]) -> bool {
@@ -641,6 +644,16 @@ impl<'a, 'ast> Visit<'ast> for Rw<'a> {
         visit::visit_path(self, p);
     }
 
+    fn visit_block(&mut self, b: &'ast syn::Block) {
+        for st in &b.stmts {
+            let tail = matches!(st, syn::Stmt::Expr(_, None));
+            let end = self.r(st.span()).1;
+            self.stmt_stack.push((end, tail));
+            self.visit_stmt(st);
+            self.stmt_stack.pop();
+        }
+    }
+
     fn visit_stmt(&mut self, s: &'ast syn::Stmt) {
         match s {
             syn::Stmt::Local(l) => {
@@ -709,6 +722,13 @@ impl<'a, 'ast> Visit<'ast> for Rw<'a> {
                 self.ed.replace(k, "", "T6.unsafe_block");
                 visit::visit_expr(self, e);
             }
+            syn::Expr::Match(m) => {
+                for a in &m.arms {
+                    let r = self.r(a.body.span());
+                    self.arms.push((r.0, r.1, matches!(&*a.body, syn::Expr::Block(_))));
+                }
+                visit::visit_expr(self, e);
+            }
             syn::Expr::Return(r) => {
                 self.returns.push(self.r(r.span()));
                 visit::visit_expr(self, e);
@@ -732,6 +752,9 @@ impl<'a, 'ast> Visit<'ast> for Rw<'a> {
                 if let syn::Expr::Path(fp) = &*c.func {
                     let segs: Vec<String> = fp.path.segments.iter().map(|s| s.ident.to_string()).collect();
                     let n = segs.len();
+                    if let Some(&(end, tail)) = self.stmt_stack.last() {
+                        self.calls.push((segs[n - 1].clone(), end, tail));
+                    }
                     // T1: Pin::new(e) / Pin::new_unchecked(e) -> (e)
                     if n >= 2 && segs[n - 2] == "Pin" && (segs[n - 1] == "new" || segs[n - 1] == "new_unchecked") && c.args.len() == 1 {
                         self.fire("T1.pin_new");
@@ -744,6 +767,9 @@ impl<'a, 'ast> Visit<'ast> for Rw<'a> {
             }
             syn::Expr::MethodCall(mc) => {
                 let m = mc.method.to_string();
+                if let Some(&(end, tail)) = self.stmt_stack.last() {
+                    self.calls.push((m.clone(), end, tail));
+                }
                 let recv = self.r(mc.receiver.span());
                 let whole = self.r(e.span());
                 match m.as_str() {
@@ -1013,6 +1039,9 @@ fn new_rw<'a>(src: &'a Src, facts: &'a Facts) -> Rw<'a> {
         returns: vec![],
         loops: vec![],
         panics: vec![],
+        arms: vec![],
+        calls: vec![],
+        stmt_stack: vec![],
     }
 }
 
@@ -1063,9 +1092,7 @@ fn emit_fn(src: &Src, facts: &Facts, spec: &FnSpec, vspec_name: &str, out: &mut 
 
     // ---- body
     if spec.mode == "verify" {
-        for st in &loc.block.stmts {
-            rw.visit_stmt(st);
-        }
+        rw.visit_block(loc.block);
     }
     if !rw.errors.is_empty() {
         return Err(format!("{}: {}", spec.key, rw.errors.join("; ")));
@@ -1145,6 +1172,38 @@ fn emit_fn(src: &Src, facts: &Facts, spec: &FnSpec, vspec_name: &str, out: &mut 
                 rw.ed.splice(*close, &format!("{}\n", b.text), &tag(&key, b), true);
             }
         }
+        for (k, (open, _close, _)) in loops.iter().enumerate() {
+            let key = format!("loop-begin {k}");
+            if let Some(b) = spec.at.get(&key) {
+                rw.ed.splice(*open + 1, &format!("\n{}", b.text), &tag(&key, b), false);
+            }
+        }
+        let arms = rw.arms.clone();
+        for (k, (st, en, is_block)) in arms.iter().enumerate() {
+            let key = format!("arm {k}");
+            if let Some(b) = spec.at.get(&key) {
+                if *is_block {
+                    rw.ed.splice(*st + 1, &format!("\n{}", b.text), &tag(&key, b), false);
+                } else {
+                    rw.ed.splice(*st, &format!("{{\n{}", b.text), &tag(&key, b), false);
+                    rw.ed.suffix(*en, " }", "splice");
+                }
+            }
+        }
+        let calls = rw.calls.clone();
+        for (pos, b) in spec.at.iter() {
+            if let Some(rest) = pos.strip_prefix("after-call ") {
+                let mut it = rest.split_whitespace();
+                let name = it.next().unwrap_or("");
+                let n: usize = it.next().and_then(|x| x.parse().ok()).unwrap_or(0);
+                let hits: Vec<&(String, usize, bool)> = calls.iter().filter(|c| c.0 == name).collect();
+                match hits.get(n) {
+                    Some((_, end, false)) => rw.ed.splice(*end, &format!("\n{}", b.text), &tag(pos, b), true),
+                    Some((_, _, true)) => return Err(format!("{}: lost anchor: call `{name}` #{n} is in tail position", spec.key)),
+                    None => return Err(format!("{}: lost anchor: call `{name}` #{n} not found", spec.key)),
+                }
+            }
+        }
         for k in spec.loops.keys() {
             if *k >= loops.len() {
                 return Err(format!("{}: lost anchor: contract names loop {k} but the function has {} loops", spec.key, loops.len()));
@@ -1156,6 +1215,9 @@ fn emit_fn(src: &Src, facts: &Facts, spec: &FnSpec, vspec_name: &str, out: &mut 
                 Some(("exit", n)) => n.parse::<usize>().map(|n| n < returns.len()).unwrap_or(false),
                 Some(("panic", n)) => n.parse::<usize>().map(|n| n < panics.len()).unwrap_or(false),
                 Some(("loop-end", n)) => n.parse::<usize>().map(|n| n < loops.len()).unwrap_or(false),
+                Some(("loop-begin", n)) => n.parse::<usize>().map(|n| n < loops.len()).unwrap_or(false),
+                Some(("arm", n)) => n.parse::<usize>().map(|n| n < arms.len()).unwrap_or(false),
+                Some(("after-call", _)) => true,
                 _ => false,
             };
             if !ok {
@@ -1166,6 +1228,11 @@ fn emit_fn(src: &Src, facts: &Facts, spec: &FnSpec, vspec_name: &str, out: &mut 
         if let Some(n) = spec.opts.iter().find_map(|o| o.strip_prefix("returns=")) {
             if n.parse::<usize>().ok() != Some(returns.len()) {
                 return Err(format!("{}: lost anchor: sidecar expects {n} `return`s, function has {}", spec.key, returns.len()));
+            }
+        }
+        if let Some(n) = spec.opts.iter().find_map(|o| o.strip_prefix("arms=")) {
+            if n.parse::<usize>().ok() != Some(arms.len()) {
+                return Err(format!("{}: lost anchor: sidecar expects {n} match arms, function has {}", spec.key, arms.len()));
             }
         }
         if let Some(n) = spec.opts.iter().find_map(|o| o.strip_prefix("loops=")) {
